@@ -190,7 +190,7 @@ def build_text(case):
                 # a command class without an output declaration, referenced through typed result parameters
                 lines.append("N%d = NoOut(%s)" % (i, "A = %s" % outs[0] if len(outs) == 1 else "L = [%s]" % ", ".join(outs)))
             else:
-                lines.append("N%d = Op(%s)" % (i, ", ".join(args)))
+                lines.append("N%d = %s(%s)" % (i, "IterOp" if (case["order"] + i) % 5 == 0 else "Op", ", ".join(args)))
         libs = ("vprobe",)
     else:
         lines.append('Leaf = EEMSRead(InFileName = "in.csv", InFieldName = "X0")')
